@@ -103,6 +103,12 @@ def _simplex(rng, c):
         p = [0] * c
         i, j = rng.sample(range(c), 2)
         p[i] = p[j] = 8
+    elif kind < 0.45 and c >= 3:
+        # a tie at the top with mass left for the others, e.g. [.375, .375, .25]
+        p = [0] * c
+        i, j, l = rng.sample(range(c), 3)
+        p[i] = p[j] = 6
+        p[l] = 4
     else:
         cuts = sorted(rng.randint(0, 16) for _ in range(c - 1))
         p = [b - a for a, b in zip([0] + cuts, cuts + [16])]
@@ -112,7 +118,14 @@ def _simplex(rng, c):
 def _weights(rng, n):
     kind = rng.choice(["none", "none", "uniform", "uniform", "normalised", "normalised", "raw", "zeros", "zeros",
                        "allzero", "badlen"] if rng.random() < 0.25 else
-                      ["none", "uniform", "normalised", "raw", "zeros"])
+                      ["none", "uniform", "normalised", "raw", "zeros", "tiny", "tiny", "huge"])
+    if kind in ("tiny", "huge"):
+        # the same kinds of weights at a very small / very large magnitude (exact: powers of two)
+        _, w = _weights(rng, n)
+        while w is None or len(w) != n or not any(w):
+            _, w = _weights(rng, n)
+        f = rng.choice([2.0 ** -30, 2.0 ** -40, 2.0 ** -60]) if kind == "tiny" else rng.choice([2.0 ** 20, 2.0 ** 40])
+        return kind, [x * f for x in w]
     if kind == "none":
         return kind, None
     if kind == "uniform":
@@ -514,6 +527,39 @@ def oracle(case, only=None, items_out=None):
         r = _same(base, call(dict(case, history=None)), tie)
         if r:
             fails.append(("reuse-independent", "same call on a fresh instance differs: " + r))
+    # -- only the ratios of the weights matter: w and c*w (c a power of two, so c*w is exact) give the same outputs
+    if w is not None and want("weight-scale-invariant"):
+        for cfac in (2.0 ** -30, 2.0 ** -60, 2.0 ** 20):
+            r = _same(base, call(case, weights=[x * cfac for x in w]), tie)
+            if r:
+                fails.append(("weight-scale-invariant", f"weights {list(w)} vs the same weights times {cfac!r}: " + r))
+                break
+    # -- ModeAggregator: each present member casts ONE vote, for its first maximal class (np.argmax); the vote shares
+    #    are the weighted average of these votes, the result is a class of maximal share, uncertainty = 1 - max share
+    if agg == "mode" and want("mode-vote"):
+        full = call(case, opts={"with_uncertainty": True})
+        if full[0] == "ok":
+            c = case["shape"][-1]
+            locd, locm = full[1]["loc"]
+            ud, um = full[1]["uncertainty"]
+            locd, locm, ud, um = locd.reshape(-1), locm.reshape(-1), ud.reshape(-1), um.reshape(-1)
+            for j in range(len(locd)):
+                shares = [Fraction(0)] * c
+                for i, m in enumerate(case["members"]):
+                    if case["masked"] and m["mask"][j * c]:
+                        continue
+                    pr = m["data"][j * c:(j + 1) * c]
+                    shares[pr.index(max(pr))] += Fraction(1) if w is None else Fraction(w[i])
+                tot = sum(shares)
+                if tot == 0 or locm[j] or um[j]:
+                    continue
+                shares = [x / tot for x in shares]
+                k_ = int(locd[j])
+                if not (0 <= k_ < c) or shares[k_] < max(shares) - Fraction(1, 10 ** 9) or not math.isfinite(ud[j]) or \
+                        abs(Fraction(float(ud[j])) - (1 - max(shares))) > Fraction(1, 10 ** 9):
+                    fails.append(("mode-vote", f"row {j}: mode {k_}, uncertainty {ud[j]!r}; one vote per present member "
+                                               f"(first maximal class) gives shares {[float(x) for x in shares]}"))
+                    break
     # -- uniform weights == no weights
     if want("uniform-eq-none"):
         r = _same(call(case, weights=None), call(case, weights=[case.get("uniform_c", 1.0)] * n),
@@ -855,9 +901,9 @@ def run(ck):
             ck.mismatch(case, f"model: refused with {rep['err']} ({EXC_OF[rep['err']]}), impl: {got or 'accepted'}")
     cases = _corpus()
     ck.count("corpus", len(cases))
-    n = ck.pick(4000, 40000)
+    n = ck.pick(3000, 40000)
     cases += [gen_case(ck.rng) for _ in range(n)]
-    for _ in range(ck.pick(700, 7000)):
+    for _ in range(ck.pick(500, 7000)):
         cases += gen_history(ck.rng)
     _check_cases(ck, cases)
 
